@@ -3,6 +3,7 @@ package props
 import (
 	"fmt"
 	"sort"
+	"strings"
 	"sync"
 
 	"github.com/openziti/storage/ast"
@@ -254,12 +255,7 @@ func init() {
 }
 
 func containsBoss(h string) bool {
-	for i := 0; i+7 <= len(h); i++ {
-		if h[i:i+7] == `/"boss"` {
-			return true
-		}
-	}
-	return false
+	return strings.Contains(h, `/"bs"`) // the boss field is stored under the key "bs"
 }
 
 func sameList(a, b []string) bool {
